@@ -200,3 +200,56 @@ func VerifC18_WatchListing() {
 		e1.GetUpsert().GetResource().GetId().GetName() == nsA+"7" && e2.GetUpsert().GetResource().GetId().GetName() == nsA+"8")
 	verifrt.Reached("end")
 }
+
+// Watchers with different (partly wildcarded) tenancy scopes on the same type, opened in any order while the
+// snapshot cache is warm: each one's initial listing is exactly the resources inside its own scope.
+func VerifC18_WatchScopes() {
+	s := mustStore()
+	type ten struct{ part, ns string }
+	placed := []ten{{"default", "default"}, {"default", "other"}, {"billing", "payments"}}
+	present := make([]bool, len(placed))
+	for i, t := range placed {
+		if present[i] = verifrt.Bool("resource" + string(rune('0'+i))); present[i] {
+			r := vRes("r"+string(rune('0'+i)), "u", "1")
+			r.Id.Tenancy = &pbresource.Tenancy{Partition: t.part, Namespace: t.ns}
+			if err := s.WriteCAS(r, ""); err != nil {
+				panic(err)
+			}
+		}
+	}
+	for s.pub.VerifDrainOne() {
+	}
+	scopes := []ten{{"default", "default"}, {"default", storage.Wildcard}, {storage.Wildcard, storage.Wildcard}, {"billing", "payments"}}
+	ut := storage.UnversionedTypeFrom(vType)
+	var ws []*Watch
+	var chosen []ten
+	for k := 0; k < 2; k++ {
+		sc := scopes[verifrt.Choice("watcher"+string(rune('0'+k))+".scope", len(scopes))]
+		w, err := s.WatchList(ut, &pbresource.Tenancy{Partition: sc.part, Namespace: sc.ns}, "")
+		if err != nil {
+			panic(err)
+		}
+		ws, chosen = append(ws, w), append(chosen, sc)
+	}
+	for k, w := range ws {
+		want := 0
+		for i, t := range placed {
+			if present[i] && (chosen[k].part == storage.Wildcard || chosen[k].part == t.part) && (chosen[k].ns == storage.Wildcard || chosen[k].ns == t.ns) {
+				want++
+			}
+		}
+		got := 0
+		for n := 0; n < 8; n++ {
+			ev, err := w.Next(context.Background())
+			if err != nil {
+				panic(err)
+			}
+			if ev.GetEndOfSnapshot() != nil {
+				break
+			}
+			got++
+		}
+		verifrt.Assert("C18.watch.initial-listing-is-exactly-the-watchers-scope", got == want)
+	}
+	verifrt.Reached("end")
+}
